@@ -163,6 +163,8 @@ extern char* GetFromListOutList(void);
 
 extern void BookKeeping(void);
 
+extern Boolean SetMaxCodeLenForArgs(void);
+
 extern long DTime(long t1, long t2);
 
 extern void InitPass(void);
